@@ -1185,8 +1185,11 @@ func abs(x float64) float64 {
 	return x
 }
 
+// roundup rounds to one decimal, half-up. The epsilon (the one used by the
+// FIRST reference calculator) absorbs the binary floating-point noise of the
+// interpolation, which otherwise makes exact x.x5 values round down.
 func roundup(x float64) float64 {
-	return math.Round(x*10) / 10
+	return math.Round((x+1e-6)*10) / 10
 }
 
 // Nomenclature returns the CVSS v4.0 configuration used when scoring.
